@@ -334,6 +334,20 @@ func subC17System(arg string) string {
 		}()
 		time.Sleep(100 * time.Millisecond)
 	}
+	if fault == "aged-connection" {
+		// the connection to each peer is opened by a request that carries a deadline; the deadline
+		// bounds that request (and the id exchange it caused), not the connection: the requests made
+		// on the same connection after the deadline has passed must be served
+		for i := 0; i < npeers; i++ {
+			ctx, cancel := context.WithTimeout(context.Background(), 700*time.Millisecond)
+			_, err := sa.Request(ctx, []byte(fmt.Sprintf("peer%d", i)), &vss.Signature{RequestId: []byte(fmt.Sprintf("open%d", i))})
+			cancel()
+			if err != nil {
+				note(fmt.Sprintf("the request that opened the connection to peer%d returned the error %v", i, err))
+			}
+		}
+		time.Sleep(1100 * time.Millisecond)
+	}
 	closeAt := -1
 	if fault == "peer-closes" {
 		closeAt = nreq / 2
@@ -397,7 +411,7 @@ func subC17System(arg string) string {
 				rmu.Lock()
 				wasDropped := dropped[tag]
 				rmu.Unlock()
-				if !cancelled && !wasDropped && (fault == "none" || fault == "peer-restarts") {
+				if !cancelled && !wasDropped && (fault == "none" || fault == "peer-restarts" || fault == "aged-connection") {
 					note(fmt.Sprintf("request %s to %s was answered but returned the error %v", tag, peer, err))
 				}
 				if !cancelled && !wasDropped && (fault == "refused" || fault == "silent") {
@@ -661,6 +675,8 @@ func genC17(rng *hx.Rng, tier string, w *hx.Writer) error {
 	}
 	seed++
 	add(fmt.Sprintf("n=8,peers=1,drop=0,cancel=0,fault=peer-restarts,seed=%d", seed), "f:peer-restarts")
+	seed++
+	add(fmt.Sprintf("n=12,peers=2,drop=0,cancel=0,fault=aged-connection,seed=%d", seed), "f:aged-connection")
 	// histories over the connection tables, against Models/ConnTable.v
 	nh := 6
 	if tier == "thorough" {
